@@ -315,6 +315,40 @@ func SameMessages(a, b *RunResult) []string {
 	return bad
 }
 
+// QueuedDescriptions counts what a keyper ever had in its outbox (committed rows, by id) per description.
+func QueuedDescriptions(tr *Trace) map[string]int {
+	ids := map[int32]string{}
+	for _, snap := range tr.Outbox {
+		for _, row := range snap.Rows {
+			ids[row.ID] = row.Description
+		}
+	}
+	out := map[string]int{}
+	for _, d := range ids {
+		out[d]++
+	}
+	return out
+}
+
+// SameQueued compares what the observed keyper queued in two runs: a restart may send a queued message again,
+// it never queues one the crash-free run does not queue, or one more of a kind.
+func SameQueued(a, b *RunResult, keyper int) []string {
+	qa, qb := QueuedDescriptions(a.Keypers[keyper].Trace), QueuedDescriptions(b.Keypers[keyper].Trace)
+	var bad []string
+	for d, n := range qa {
+		if qb[d] != n {
+			bad = append(bad, fmt.Sprintf("%q queued %d times in the crash-free run and %d times here", d, n, qb[d]))
+		}
+	}
+	for d, n := range qb {
+		if _, ok := qa[d]; !ok {
+			bad = append(bad, fmt.Sprintf("%q queued %d times here and never in the crash-free run", d, n))
+		}
+	}
+	sort.Strings(bad)
+	return bad
+}
+
 // Accepted counts the transactions DeliverTx accepted (code 0) by kind.
 func (res *RunResult) Accepted() map[string]int {
 	out := map[string]int{}
